@@ -2243,7 +2243,7 @@ Print Assumptions mech_refines_spec.
 (* ---------------------------------------------------------------------------------------------- *)
 (* what the try-free class contains (programs in the wire format of ModLang.parse_prog; B = print/type/Vec) *)
 Open Scope string_scope.
-Definition ex_B : list name := ["print"; "type"; "Vec"; "String"].
+Definition ex_B : list name := ["print"; "type"; "Vec"; "String"; "Fiber"].
 Definition ex_obs (w : string) : obs := mech_obs (parse_prog w) [] ex_B 64 true true true 200 [].
 Definition ex_spec (w : string) : obs := spec_obs (parse_prog w) (ex_B ++ []) 64 200.
 
@@ -2257,6 +2257,17 @@ Definition ex_cycle : string := "0 1 0 5 1 0 1 9;0 1 10 5 2 0;0 1 20 5 3 0;0 1 3
 (* a missing and an uncompilable member *)
 Definition ex_missing : string := "0 1 0 5 1 0 5 3 0;0 1 10;1;1".
 Definition ex_bad : string := "0 1 0 5 2 0;1;3".
+
+(* m1's body (still loading) calls f0 through TWO nested fibers; f0 imports m1 again inside a try: a cycle *)
+Definition ex_fiber_cycle : string := "0 5 1 0;0 20 0 11 21 0 13 5 1 2 7 2 0 0 1 5 0 1 10 16 2 0 1 11".
+(* the same without the try inside the fiber: fatal, although the fiber call sits in a try of the waiting fiber *)
+Definition ex_fiber_fatal : string := "0 13 5 1 0 0 1 1;0 21 0 5 1 2 0 1 10 13 16 2 0 0 1 11".
+
+Example ex_fiber_cycle_obs :
+  ex_obs ex_fiber_cycle = mkobs ["t10"; "<class ImportError>"; cyc_msg "m1"; "t5"; "t11"] ["m1"] ObOk
+  /\ ex_obs ex_fiber_fatal = mkobs ["t10"] ["m1"] (ObDead "ImportError" ("Unhandled ImportError: " ++ cyc_msg "m1"))
+  /\ ex_obs ex_fiber_cycle = ex_spec ex_fiber_cycle /\ ex_obs ex_fiber_fatal = ex_spec ex_fiber_fatal.
+Proof. vm_compute. repeat split; reflexivity. Qed.
 
 Example tf_examples :
   tf_prog (parse_prog ex_single) = true /\ tf_prog (parse_prog ex_diamond) = true /\ tf_prog (parse_prog ex_cycle) = true
